@@ -644,7 +644,7 @@ pub fn run(ctx: &mut Ctx) {
         let _ = i; ctx.distinct(h.log.join(";").as_bytes());
     }
     // big histories: sizes up to the 64 MiB limit; rollback only as the final, Rust-only operation
-    for i in 0..ctx.n(6, 100) {
+    for i in 0..ctx.n(6, 100).min(100) {
         let mut h = Hist::new(ctx);
         let len = ctx.rng.range(40, 120);
         let snap_at = ctx.rng.below(len);
